@@ -3,6 +3,7 @@ import P0f.Model.DbParse
 import P0f.Props.C04Http
 import P0f.Generated.Logic.ReadHeaders
 import P0f.Generated.Logic.ReadFirstLine
+import P0f.Generated.Logic.ReadPayload
 /-
   `read_headers` and `read_first_line` (C07, C04) against the source text, and `read_payload` composed from the printed parts.
 -/
@@ -94,40 +95,53 @@ theorem gen_readFirstLine (line : Bytes) :
        · simp only [hg, Bool.false_eq_true, if_false, Option.elim_some, Sum.elim_inr]
          cases minorVersion p0 <;> rfl)
 
-/-- `read_payload` composed from the printed parts: `copy_buffer(buffer).maybe_extract_lines()` is the model's `extractLines`
-    (h11's buffer, not printed), `if not lines` rejects `None` and `[]`, then `read_first_line(lines[0])`, `read_headers(lines[1:])` -/
-def Gen.readPayload (data : Bytes) : Option (Dir × Nat × List Hdr) :=
-  match extractLines data with
-  | none => none
-  | some [] => none
-  | some (first :: rest) =>
-    (Gen.readFirstLine first).bind fun r => (Gen.readHeaders rest).map fun hs => (r.1, r.2, hs)
-
 def readOutOpt : ReadOut → Option (Dir × Nat × List Hdr)
   | .ok r m hs => some (if r then Dir.req else Dir.resp, m, hs)
   | _ => none
 
-/-- **C07 / C04 against the source text**: for EVERY byte string, the reader composed from the printed `read_first_line` and
-    `read_headers` gives the model's result (direction, minor version, header list in wire order) or rejects exactly when the
-    model rejects -/
+/-- **C07 / C04 against the source text**: for EVERY byte string, `read_payload` as printed from the working tree (calling the
+    printed `read_first_line` and `read_headers`; h11's line extraction bound to the model's `extractLines`) gives the model's
+    result (direction, minor version, header list in wire order) or rejects exactly when the model rejects -/
 theorem source_readPayload (data : Bytes) : Gen.readPayload data = readOutOpt (readPayload data) := by
-  unfold Gen.readPayload readPayload
-  cases he : extractLines data with
-  | none => rfl
-  | some ls =>
-    cases ls with
-    | nil => rfl
-    | cons first rest =>
-      have hne := extractLines_nonempty data _ he
-      have hrest : ∀ l ∈ rest, l ≠ [] := fun l hl => hne l (List.mem_cons_of_mem _ hl)
-      simp only [gen_readFirstLine, gen_readHeaders rest hrest]
-      cases readFirstLine first with
-      | none => rfl
-      | some r =>
-        obtain ⟨isReq, minor⟩ := r
-        simp only [Option.map_some, Option.bind_some]
-        cases hh : readHeadersGo rest [] with
-        | ok hs => rfl
-        | error e => cases e <;> rfl
+  unfold readPayload
+  first
+  | (unfold Gen.readPayload
+     simp only []
+     cases he : extractLines data with
+     | none => rfl
+     | some ls =>
+       cases ls with
+       | nil => rfl
+       | cons first rest =>
+         have hne := extractLines_nonempty data _ he
+         have hrest : ∀ l ∈ rest, l ≠ [] := fun l hl => hne l (List.mem_cons_of_mem _ hl)
+         simp only [Option.elim_some, List.isEmpty_cons, Bool.false_eq_true, if_false, List.map_id', List.getD_cons_zero, List.drop_one,
+           List.tail_cons, gen_readFirstLine, gen_readHeaders rest hrest]
+         cases readFirstLine first with
+         | none => rfl
+         | some r =>
+           obtain ⟨isReq, minor⟩ := r
+           simp only [Option.map_some, Option.elim_some]
+           cases hh : readHeadersGo rest [] with
+           | ok hs => rfl
+           | error e => cases e <;> rfl)
+  | (unfold Gen.readPayload
+     cases he : extractLines data with
+     | none => rfl
+     | some ls =>
+       cases ls with
+       | nil => rfl
+       | cons first rest =>
+         have hne := extractLines_nonempty data _ he
+         have hrest : ∀ l ∈ rest, l ≠ [] := fun l hl => hne l (List.mem_cons_of_mem _ hl)
+         simp only [gen_readFirstLine, gen_readHeaders rest hrest]
+         cases readFirstLine first with
+         | none => rfl
+         | some r =>
+           obtain ⟨isReq, minor⟩ := r
+           simp only [Option.map_some, Option.bind_some]
+           cases hh : readHeadersGo rest [] with
+           | ok hs => rfl
+           | error e => cases e <;> rfl)
 
 end P0f
